@@ -44,6 +44,9 @@ def swaps(F, relfile, text_lines):
                     continue
                 if any(x["k"] == "call" and not x.get("cconst") and x.get("ck") == "mem" for x in list(walk(a)) + list(walk(b))):
                     continue
+                # calls that take arguments by (non-const) reference or pointer may modify them
+                if any(x["k"] in ("call", "construct") and any(ch in (x.get("pk") or "") for ch in "rp") for x in list(walk(a)) + list(walk(b))):
+                    continue
                 out.append((la, lb))
                 used.update((la, lb))
     return out
